@@ -21,6 +21,8 @@
 //!                         model: AacRle.aac_encode_r (range coder, adaptive models, order 0/1, RLE, PACK, CAT, STRIPE)
 //!   aad   flags usize stream expect -> hex(decode stream) | Err | Panic; model: AacCap.aac_decode_r_capped (= AacRle.aac_decode_r below the cap)
 //!   fqe   lens src     -> hex(real fqzcomp stream); model: Fqz.fqz_encode; verdict: self round trip
+//!   fqq   stream expect -> as fqd; model: FqzQmap.fqz_decode_qm (decoder-only feature HAVE_QMAP: real encoder streams
+//!         rebuilt with the flag bit, a quality map of max_symbol bytes and the size field cut before the last symbol)
 //!   fqd   stream expect -> hex(decode stream) | Err | Panic; model: FqzCap.fqz_decode_capped (= Fqz.fqz_decode below the cap; streams without the features
 //!                         the encoder never uses)
 //!   nme   src          -> hex(real name tokenizer stream); model: Names.names_encode; verdict: self round trip
@@ -1534,6 +1536,65 @@ fn generate(rng: &mut Rng, tier: &str, w: &mut CaseWriter) {
         }
     }
 
+    // ---- fqzcomp HAVE_QMAP (decoder-only feature, model FqzQmap.fqz_decode_qm): the real encoder's
+    // stream of src ++ [M] (M = max + 1, its own record) rebuilt with size |src| (the decoder stops
+    // before M), parameter flag 0x10 and a map of M = max_symbol bytes: every decoded symbol is inside
+    // the map -> Ok(map[src]); with the full size the last symbol is outside the map -> Err; short
+    // map / truncations; flag without room for the map
+    for it in 0..(12 * scale) {
+        let shape = *rng.pick(&["qual", "skewed", "two", "runs", "single"]);
+        let len = rng.range(1, if it % 3 == 0 { 400 } else { 60 }) as usize;
+        let mut src = shaped(rng, shape, len);
+        for b in src.iter_mut() {
+            *b %= 47;
+        }
+        let mut lens = if it % 2 == 0 { vec![src.len()] } else { gen_partition(rng, src.len()) };
+        let m = *src.iter().max().unwrap() + 1;
+        let mut src1 = src.clone();
+        src1.push(m);
+        lens.push(1);
+        let Outcome::Done(Ok(enc)) = guarded(AssertUnwindSafe(|| v::fqzcomp_encode(&lens, &src1))) else { continue };
+        let mut p = 0usize;
+        while p < enc.len() && enc[p] & 0x80 != 0 {
+            p += 1;
+        }
+        p += 1;
+        if enc.len() < p + 9 || enc[p + 5] != m {
+            continue;
+        }
+        let map: Vec<u8> = match it % 3 {
+            0 => (0..m).map(|i| 33 + i).collect(),
+            1 => (0..m).map(|_| rng.below(256) as u8).collect(),
+            _ => (0..m).rev().collect(),
+        };
+        let u7 = |n: usize| -> Vec<u8> {
+            let mut v = vec![(n & 0x7f) as u8];
+            let mut n = n >> 7;
+            while n > 0 {
+                v.insert(0, 0x80 | (n & 0x7f) as u8);
+                n >>= 7;
+            }
+            v
+        };
+        let build = |size: usize, map: &[u8]| -> Vec<u8> {
+            let mut s = u7(size);
+            s.extend_from_slice(&enc[p..p + 9]);
+            let at = s.len() - 5;
+            s[at] |= 0x10;
+            s.extend_from_slice(map);
+            s.extend_from_slice(&enc[p + 9..]);
+            s
+        };
+        let good = build(src.len(), &map);
+        let expect: Vec<u8> = src.iter().map(|&q| map[q as usize]).collect();
+        w.push("fqq", vec![hex(&good), hex(&expect)]);
+        w.push("fqq", vec![hex(&build(src1.len(), &map)), "-".into()]);
+        w.push("fqq", vec![hex(&build(src.len(), &map[..map.len() - 1])), "-".into()]);
+        let cut = rng.range(1, good.len() as u64 - 1) as usize;
+        w.push("fqq", vec![hex(&good[..cut]), "-".into()]);
+        w.push("fqq", vec![hex(&enc), hex(&src1)]);
+    }
+
     // ---- name tokenizer
     for _ in 0..(40 * scale) {
         w.push("names", vec![hex(&gen_names(rng))]);
@@ -1968,7 +2029,7 @@ fn run(c: &Case) -> Obs {
             let lens: Vec<usize> = if c.args[0] == "_" { vec![] } else { c.args[0].split(',').map(|x| x.parse().unwrap()).collect() };
             fqe_case(&lens, &c.b(1))
         }
-        "fqd" => fqd_case(c),
+        "fqd" | "fqq" => fqd_case(c),
         "names" => names_case(&c.b(0)),
         "nme" => nme_case(&c.b(0)),
         "nmd" => nmd_case(c),
